@@ -57,7 +57,7 @@ def required(tier):
     cl += ['climb:outside-mass-refused', 'cruise:outside-mass-refused',
            'descent:mass-ignored', 'mass:min', 'mass:max', 'ptf:row-reproduced',
            'load-refused:missing-row', 'load-refused:fourth-mass', 'load-refused:duplicate-row',
-           'table:sample', 'table:generated']
+           'table:sample', 'table:generated', 'loaded:from-toml-file']
     return {'classes': cl, 'evaluations': 3000}
 
 
@@ -271,9 +271,18 @@ def run_shard(spec, rec):
                 t = perfgen.gen_table(rng)
                 rows = perfgen.table_rows(t, rng)
                 try:
-                    model = PerformanceModel.from_data(
-                        perfgen.model_dict(rows, extra_col=rng.random() < 0.3,
-                                           apu=rng.choice([None, 'APU 131-9'])))
+                    md0 = perfgen.model_dict(rows, extra_col=rng.random() < 0.3,
+                                             apu=rng.choice([None, 'APU 131-9']))
+                    if rng.random() < 0.4:
+                        # through a TOML file on disk, as a user would
+                        import tomli_w
+                        fpath = hdir / f'model{k}.toml'
+                        with open(fpath, 'wb') as fh:
+                            tomli_w.dump(md0, fh)
+                        model = PerformanceModel.load(fpath)
+                        rec.cls('loaded:from-toml-file')
+                    else:
+                        model = PerformanceModel.from_data(md0)
                 except Exception as e:  # noqa: BLE001
                     raise Mismatch('a valid performance table was refused at load',
                                    {'error': f'{type(e).__name__}: {str(e)[:200]}', **case})
